@@ -14,10 +14,15 @@ import jax.numpy as jnp
 import numpy as np
 
 import genjax.inference.mcmc as mcmc
-from genjax import gen, normal, seed, sel
+from genjax import gen, normal, seed, sel, Cond
+from genjax.core import distribution
 from genjax.distributions import uniform as real_uniform
 
 from gfi_build import build_sel, name, STUBS
+
+
+# a normal whose sampler returns a scripted ("tape") value: simulate / unconstrained generate give exact values
+tnormal = distribution(lambda t, mu, sig: t + 0.0 * mu, lambda v, t, mu, sig: normal.logpdf(v, mu, sig), name="tnormal")
 
 
 def fr(x):
@@ -76,10 +81,16 @@ def make_model(rng):
             nenv = nargs + i + L + (j - i - 1)
             tail.append({"a": sites[j]["a"], "mu": qexpr(rng, nenv, 2), "sig": sites[j]["sig"], "path": [sites[j]["a"]]})
         sites = sites[:i] + lanes + tail
+    elif not nested and rng.random() < 0.45:
+        # one site lives in a Cond sub-call (address a9) whose two branches share the site's address; the hidden
+        # branch has another mean / sigma and - in a trace built without constraining it - another value
+        i = rng.randrange(nsites)
+        sites[i]["path"] = [9, sites[i]["a"]]
+        sites[i]["cond"] = {"flag": rng.random() < 0.5, "hid_sig": rng.choice([0.5, 1.0, 2.0])}
     return {"nargs": nargs, "sites": sites, "nested": nested, "lo": lo, "hi": hi}
 
 
-def build_model(md, kw=False):
+def build_model(md, kw=False, tape=None):
     """kw=True: the last model argument is a keyword parameter with a default (7.0) that the trace's
     recorded keyword arguments always override"""
     sites, nargs = md["sites"], md["nargs"]
@@ -103,6 +114,20 @@ def build_model(md, kw=False):
                 return vsub
             vsubs[s0["a"]] = mk(s0["base"], s0["sig"], s0["a"])
 
+    condgfs = {}
+    for s0 in sites:
+        if "cond" in s0:
+            def mkc(s1):
+                @gen
+                def vis(t, *e):
+                    return tnormal(t, qev(s1["mu"], list(e)), s1["sig"]) @ name(s1["a"])
+
+                @gen
+                def hid(t, *e):
+                    return tnormal(t + 1.5, qev(s1["mu"], list(e)) + 1.0, s1["cond"]["hid_sig"]) @ name(s1["a"])
+                return Cond(vis, hid) if s1["cond"]["flag"] else Cond(hid, vis)
+            condgfs[s0["a"]] = mkc(s0)
+
     def body(env):
         i = 0
         while i < len(sites):
@@ -119,6 +144,12 @@ def build_model(md, kw=False):
                 xs = vsubs[s["a"]].vmap(in_axes=(0,) + (None,) * nenv)(cs, *env) @ name(8)
                 env.extend([xs[l] for l in range(len(grp))])
                 i += len(grp)
+                continue
+            if "cond" in s:
+                t = jnp.float32(0.0 if tape is None else tape[i])
+                flag = s["cond"]["flag"]
+                env.append(condgfs[s["a"]](jnp.asarray(flag), t, *env) @ name(9))
+                i += 1
                 continue
             env.append(normal(qev(s["mu"], env), s["sig"]) @ name(s["a"]))
             i += 1
@@ -218,7 +249,14 @@ def scripted(kind, md, model, args, xs, s, rng):
     u = rng.choice([0.05, 0.3, 0.5, 0.8, 0.97])
     nsteps = rng.choice([1, 2, 3])
     use_kw = bool(len(args) >= 1 and rng.random() < 0.4)
-    if use_kw:
+    ci = [i for i, t in enumerate(md["sites"]) if "cond" in t]
+    if ci:
+        # the Cond site is left unconstrained: its visible branch takes the tape value xs[i], the hidden one another
+        use_kw = False
+        cd = choices_dict(md, xs)
+        del cd[name(9)]
+        tr, _ = build_model(md, tape=xs).generate(cd, *[jnp.float32(a) for a in args])
+    elif use_kw:
         # the model's last argument passed (and recorded in the trace) by keyword
         tr, _ = build_model(md, kw=True).generate(choices_dict(md, xs), *[jnp.float32(a) for a in args[:-1]],
                                                   kwlast=jnp.float32(args[-1]))
